@@ -1,6 +1,16 @@
 //! pvmon — runtime monitors for mikedilger/pocket (see /verif/DESIGN.md)
 mod util;
+mod sem;
+mod jsonref;
+mod sha256;
 
+mod c01;
+mod c02;
+mod c03;
+mod c06;
+mod c07;
+mod c08;
+mod c19;
 mod c20;
 
 use util::*;
@@ -9,7 +19,19 @@ fn main() {
     let args = Args::parse();
     install_panic_hook();
     let rep: Report = match args.cmd.as_str() {
+        "c01" => c01::run(&args),
+        "c02" => c02::run(&args),
+        "c03" => c03::run(&args),
+        "c03-child" => {
+            c03::child(&args);
+            return;
+        }
+        "c06" => c06::run(&args),
+        "c07" => c07::run(&args),
+        "c08" => c08::run(&args),
+        "c19" => c19::run(&args),
         "c20" => c20::run(&args),
+        "noop" => Report::new("noop", "", "", 0),
         "replay" => {
             let path = args.pos.first().cloned().unwrap_or_default();
             let txt = std::fs::read_to_string(&path).expect("read replay file");
@@ -18,6 +40,13 @@ fn main() {
             let mut rep = Report::new(&prop, &args.leg(), "replay", 0);
             let payload = &v["replay"];
             match prop.as_str() {
+                "C01" => c01::replay(payload, &mut rep),
+                "C02" => c02::replay(payload, &mut rep),
+                "C03" => c03::replay(payload, &mut rep),
+                "C06" => c06::replay(payload, &mut rep),
+                "C07" => c07::replay(payload, &mut rep),
+                "C08" => c08::replay(payload, &mut rep),
+                "C19" => c19::replay(payload, &mut rep),
                 "C20" => c20::replay(payload, &mut rep),
                 _ => rep.notes.push(format!("no replay handler for {prop}")),
             }
